@@ -134,6 +134,7 @@ type Prop struct {
 
 type ReplayFile struct {
 	Property string                    `json:"property"`
+	Engine   string                    `json:"engine,omitempty"`
 	Class    string                    `json:"class"`
 	Msg      string                    `json:"msg"`
 	Seed     uint64                    `json:"seed"`
@@ -430,12 +431,12 @@ func minimiseAndSave(p *Prop, sc any, c *Ctx, v *Violation, seed uint64, tier, d
 		}
 	}
 	raw, _ := json.Marshal(sc)
-	rf := &ReplayFile{Property: p.ID, Class: v.Class, Msg: v.Msg, Seed: seed, Tier: tier, Scenario: raw, Tapes: tapes,
+	rf := &ReplayFile{Property: p.ID, Engine: os.Getenv("VERIF_ENGINE"), Class: v.Class, Msg: v.Msg, Seed: seed, Tier: tier, Scenario: raw, Tapes: tapes,
 		Shrink: fmt.Sprintf("%d candidates tried, %d accepted", steps, accepted), Trace: tail(cc.TraceOut, 400)}
 	path := ""
 	if dir != "" {
 		os.MkdirAll(dir, 0755)
-		path = filepath.Join(dir, fmt.Sprintf("%s-%d.json", p.ID, seed))
+		path = filepath.Join(dir, fmt.Sprintf("%s-%s%d.json", p.ID, os.Getenv("VERIF_ENGINE"), seed))
 		b, _ := json.MarshalIndent(rf, "", " ")
 		os.WriteFile(path, b, 0644)
 	}
